@@ -43,7 +43,7 @@ T_Begin ==
   /\ LET e == Trace[l]  n == Len(e.stmts) IN
      cs' = [id |-> e.id, stmts |-> e.stmts, i |-> 1, k |-> 0, sym |-> EmptyFn, equs |-> << >>,
             locB |-> [j \in 1..n |-> 0], psz |-> [j \in 1..n |-> 0], bitsS |-> [j \in 1..n |-> 16],
-            ocB |-> [j \in 1..n |-> 0], ocA |-> [j \in 1..n |-> 0], dg |-> {}, dgp1 |-> {},
+            ocB |-> [j \in 1..n |-> 0], ocA |-> [j \in 1..n |-> 0], dg |-> {}, dgp1 |-> {}, anames |-> {},
             sb |-> [j \in 1..n |-> << >>], soff |-> [j \in 1..n |-> -1], cgbits |-> [j \in 1..n |-> 0],
             org |-> 0, bits |-> 16, seen |-> 0, judged |-> 0, unjudged |-> 0, nt |-> e.nt]
   /\ l' = l + 1 /\ UNCHANGED <<res, refs>>
@@ -110,6 +110,9 @@ T_P1 ==
      /\ Report(JudgeP1(cs, i, e))
      /\ cs' = [cs EXCEPT !.i = i + 1,
                          !.sym = IF e.kind = "Label" THEN Put(cs.sym, e.name, e.val) ELSE @,
+                         \* EQU names whose value is an ADDRESS: the body mentions `$`, a label, or such a name
+                         !.anames = IF cs.stmts[i].k = "equ" /\ (HasDollar(cs.stmts[i].e) \/ Names(cs.stmts[i].e) \cap (@ \cup {cs.stmts[j].nm : j \in {x \in 1..Len(cs.stmts) : cs.stmts[x].k = "label"}}) # {})
+                                    THEN @ \cup {cs.stmts[i].nm} ELSE @,
                          !.equs = IF cs.stmts[i].k = "equ" THEN Append(@, <<i, cs.stmts[i].nm, SubstDollar(cs.stmts[i].e, e.locB)>>) ELSE @,
                          !.locB[i] = e.locB, !.psz[i] = e.locA - e.locB, !.bitsS[i] = cs.bits,
                          !.ocB[i] = e.ocB, !.ocA[i] = e.ocA,
@@ -148,7 +151,7 @@ JudgeStmt(c, i, bytes, off, cgb) ==
   CASE s.k = "data" ->
          IF ~ItemsDefined(s.items, env) THEN {Mk(<<"C07">>, "undefined symbol in data assembled silently")}
          ELSE IF bytes # ItemsBytes(s.items, DataWidth(s.mn), env)
-              THEN {Mk(IF \E j \in 1..Len(s.items) : s.items[j].t = "e" /\ UsesSym(s.items[j].e, env)
+              THEN {Mk(IF \E j \in 1..Len(s.items) : s.items[j].t = "e" /\ (UsesSym(s.items[j].e, env) \/ Names(s.items[j].e) \cap c.anames # {})
                        THEN <<"C05", "C03", "C06">> ELSE <<"C05", "C06">>, "data bytes")} \cup size
               ELSE size
     [] s.k = "resb" ->
@@ -163,7 +166,11 @@ JudgeStmt(c, i, bytes, off, cgb) ==
          ELSE IF ~Judged(s) THEN size
          ELSE IF ~Denotes(bytes, s, bits, V)
               THEN {[Mk(IF cgb # bits /\ cgb \in {16, 32} /\ Denotes(bytes, s, cgb, V) THEN <<"C17">>
-                        ELSE IF HasMem(s.ops) THEN <<"C01", "C02">> ELSE <<"C01">>,
+                        ELSE (IF HasMem(s.ops) THEN <<"C01", "C02">> ELSE <<"C01">>)
+                             \o (IF \E j \in 1..Len(c.stmts[i].ops) : LET o == c.stmts[i].ops[j] IN
+                                       (o.t = "l" /\ (o.nm \in DOMAIN c.sym \/ o.nm \in c.anames \/ o.nm = "$"))
+                                       \/ (o.t = "m" /\ o.lab # "" /\ (o.lab \in DOMAIN c.sym \/ o.lab \in c.anames))
+                                 THEN <<"C03">> ELSE << >>),           \* an embedded label / address value is wrong
                         "bytes do not denote the source instruction")
                      EXCEPT !.dev = IF cgb # bits /\ cgb = c.bits /\ (Denotes(bytes, s, cgb, V) \/ Dev66(bytes, s, cgb, V))
                                     THEN "D_BitsGlobal"     \* everything is emitted in the LAST mode of the file
